@@ -168,11 +168,23 @@ func lexInput(l *lexer) lexStateFn {
 	case ':':
 		return l.emitConsume(token{tokColon, ":"}, lexInput)
 	case '=':
-		return l.consume(lexEquals)
+		if _, eof := l.next(); eof {
+			l.tokens <- token{tokError, "expected '=' after '=', got end of input"}
+			return nil
+		}
+		return lexEquals
 	case '|':
-		return l.consume(lexPipe)
+		if _, eof := l.next(); eof {
+			l.tokens <- token{tokError, "expected '|' after '|', got end of input"}
+			return nil
+		}
+		return lexPipe
 	case '&':
-		return l.consume(lexAnd)
+		if _, eof := l.next(); eof {
+			l.tokens <- token{tokError, "expected '&' after '&', got end of input"}
+			return nil
+		}
+		return lexAnd
 	case '\x1a':
 		return l.consume(lexInput)
 	default:
